@@ -571,8 +571,8 @@ def _nd_options (P, opts):
   out = []
   for o in opts:
     k = o[0]
-    if k == "slla": out.append(I.NDOptSourceLinkLayerAddress(address=o[1]))
-    elif k == "tlla": out.append(I.NDOptTargetLinkLayerAddress(address=o[1]))
+    if k == "slla": out.append(I.NDOptSourceLinkLayerAddress(address=P.EthAddr(o[1])))
+    elif k == "tlla": out.append(I.NDOptTargetLinkLayerAddress(address=P.EthAddr(o[1])))
     elif k == "mtu":
       m = I.NDOptMTU(); m.mtu = o[1]; out.append(m)
     elif k == "prefix":
@@ -610,7 +610,7 @@ kind("vlan", dict(pcp=[5, 0, 7], cfi=[0, 1], id=[0x123, 0, 1, 0xfff], eth_type=[
      lambda P, v, inner: _set(P.pkt.vlan(pcp=v["pcp"], cfi=v["cfi"], id=v["id"],
                                          eth_type=_flat_len(inner) if v["eth_type"] == "len" else v["eth_type"]), inner),
      lambda P: P.pkt.vlan)
-kind("llc", dict(dsap=[0x42, 0x00, 0xff, 0xaa], ssap=[0x43, 0x01, 0xfe, 0xaa], control=[0x03, 0xf3, 0x1210, 0xfe00, 0x3401]),
+kind("llc", dict(dsap=[0x42, 0x00, 0xff, 0xaa], ssap=[0x43, 0x01, 0xfe], control=[0x03, 0xf3, 0x1210, 0xfe00, 0x3401]),
      ["dsap", "ssap", "control"],
      lambda P, v, inner: _set(P.pkt.llc(dsap=v["dsap"], ssap=v["ssap"], control=v["control"],
                                         length=3 if (v["control"] & 3) == 3 else 4), inner),
@@ -841,13 +841,13 @@ stack("eth/ipv4/udp/dhcp", [E(0x0800), I4(17), ("udp", dict(srcport=[68, 67], ds
 stack("eth/ipv4/udp/dns", [E(0x0800), I4(17), ("udp", dict(srcport=[0x9c40, 53, 5353], dstport=[53, 5353])), ("dns", {})], payload=None)
 stack("eth/ipv4/udp/rip", [E(0x0800), I4(17), UDP(520, 520), ("rip", {})], payload=None)
 
-stack("eth/ipv6/raw", [E(0x86dd), I6([253, 255, 41])])
+stack("eth/ipv6/raw", [E(0x86dd), I6([253, 255, 41], ext=[[]])])
 stack("eth/ipv6/none", [E(0x86dd), I6(59)], payload=None)
 stack("eth/ipv6/udp", [E(0x86dd), I6(17), UDP()], plens=SMALL, quick_plens=None)
 stack("eth/ipv6/tcp", [E(0x86dd), I6(6), ("tcp", {})])
 stack("eth/ipv6/udp/dns", [E(0x86dd), I6(17, ext=[[]]), UDP(None, 53), ("dns", dict(sections=DNS_SECTIONS[:2]))], payload=None, vlan=False)
-stack("eth/ipv6/icmpv6/raw", [E(0x86dd), I6(58), ("icmpv6", {})])
-stack("eth/ipv6/icmpv6/echo", [E(0x86dd), I6(58), ("icmpv6", dict(type=[128, 129], code=[0])), ("echo6", {})])
+stack("eth/ipv6/icmpv6/raw", [E(0x86dd), I6(58, ext=[[]]), ("icmpv6", {})])
+stack("eth/ipv6/icmpv6/echo", [E(0x86dd), I6(58, ext=[[]]), ("icmpv6", dict(type=[128, 129], code=[0])), ("echo6", {})])
 stack("eth/ipv6/icmpv6/unreach/raw", [E(0x86dd), I6(58, ext=[[]]), ("icmpv6", dict(type=[1], code=[0, 4, 7])), ("unreach6", {})],
       plens=[0, 2, 40], vlan=False)
 stack("eth/ipv6/icmpv6/toobig", [E(0x86dd), I6(58, ext=[[]]), ("icmpv6", dict(type=[2], code=[0])), ("toobig6", {})],
